@@ -1,5 +1,7 @@
 import Bec2Verif.Lemmas.Bec2
 import Bec2Verif.Model.P256
+import Bec2Verif.Lemmas.P256Laws
+import Bec2Verif.Props.C16
 /-!
 # C09 — the ECC auth block is decryptable by an independent ECIES implementation
 
@@ -83,6 +85,18 @@ scalar (edge scalars included: nothing in the proof depends on its value) -/
 theorem ecc_decrypt (env : Env) (hC : CryptoInv env.C) (hE : EccLaws env.E) (priv eph : Nat) (pub sk c : Bytes)
     (hpub : env.E.pubOf priv = .ok pub) (hsk : sk.length = 16) (h : eccEncrypt env pub eph sk = .ok c) :
     eccDecrypt env priv c = .ok sk := ecc_roundtrip env hC hE priv eph pub sk c hpub hsk h
+
+/-- the registered ECC plug-in on NIST P-256 satisfies `EccLaws` outright: field prime and group order proved prime by
+kernel-checked Lucas certificates, no point with `y = 0` by a kernel-checked certificate in `F_p[x]/(x³+ax+b)`, `n·G = 0`
+by evaluation of the model's own multiplication, group law from C17 (`Lemmas/P256Laws.lean`) -/
+theorem p256_ecc_laws : EccLaws P256.ecc := P256C.p256_eccLaws
+
+/-- **the shipped configuration, no hypothesis left**: with the bundled AES and the P-256 plug-in, the holder of the
+private scalar recovers exactly the session key from every block the writer makes -/
+theorem ecc_decrypt_shipped (priv eph : Nat) (pub sk c : Bytes)
+    (hpub : P256.pubOf priv = .ok pub) (hsk : sk.length = 16) (h : eccEncrypt P256.env pub eph sk = .ok c) :
+    eccDecrypt P256.env priv c = .ok sk :=
+  ecc_decrypt P256.env Props.C16.aes_plugin_instance.1 P256C.p256_eccLaws priv eph pub sk c hpub hsk h
 
 /-- without an explicit recipient the block is addressed to the published key of *its own* selector;
 an unknown selector is refused (`KeyError`) -/
